@@ -33,7 +33,7 @@ func init() {
 		{5, (*G).tVarargFn}, {4, (*G).tGoto}, {6, (*G).tTypeError}, {5, (*G).tErrorValue}, {6, (*G).tMeta},
 		{3, (*G).tMethod}, {2, (*G).tTbc}, {3, (*G).tTruncExpand}, {2, (*G).tRecursion}, {2, (*G).tStringCoerce},
 		{2, (*G).tForEdge}, {2, (*G).tXpcall}, {2, (*G).tNestedProtect}, {2, (*G).tIndexChain}, {2, (*G).tSelect},
-		{0, (*G).tErrorSite},
+		{0, (*G).tErrorSite}, {0, (*G).tPoolStress}, {5, (*G).tCoroutine},
 	}
 }
 
@@ -54,7 +54,15 @@ func (g *G) stmt() []*S {
 		}
 		if g.depth < 3 {
 			ws[30] = 40 // tErrorSite
+			ws[32] = 10 // tCoroutine
 		}
+	}
+	if g.pool && g.depth < 3 {
+		ws[31] = 45 // tPoolStress
+		for _, i := range []int{8, 9, 11, 12, 15, 19, 23} { // function definitions and calls, closures, varargs, metamethods, recursion
+			ws[i] *= 3
+		}
+		ws[30] = 12
 	}
 	return templates[g.weighted(ws)].f(g)
 }
@@ -452,6 +460,19 @@ func (g *G) tMultiAssign() []*S {
 	a := g.pickVar(func(v *VarInfo) bool { return v.Mut && v.Kind == KInt })
 	b := g.pickVar(func(v *VarInfo) bool { return v.Mut && v.Kind == KInt && v != a })
 	switch {
+	case g.chance(30):
+		// overlapping table targets and sources with different keys: t[i], t[j] = t[j], t[i]; three-way rotation
+		// through fields and a local (the targets never alias each other, so the unspecified order of the
+		// assignments cannot be observed)
+		t, i, j, x := g.fresh("t"), g.fresh("i"), g.fresh("j"), g.fresh("x")
+		vi, vj := int64(1+g.pick(2)), int64(3+g.pick(2))
+		return []*S{Do(Local([]string{t, i, j, x}, Tbl(Pos(Int(10)), Pos(Int(20)), Pos(Int(30)), Pos(Int(40)), NV("k", Str("K"))), Int(vi), Int(vj), Str("X")),
+			Assign([]*E{Idx(Var(t), Var(i)), Idx(Var(t), Var(j))}, Idx(Var(t), Var(j)), Idx(Var(t), Var(i))),
+			Emit(Idx(Var(t), Int(1)), Idx(Var(t), Int(2)), Idx(Var(t), Int(3)), Idx(Var(t), Int(4))),
+			Assign([]*E{Dot(Var(t), "k"), Var(x), Idx(Var(t), Bin("add", Var(i), Int(0)))}, Var(x), Idx(Var(t), Var(i)), Dot(Var(t), "k")),
+			Emit(Dot(Var(t), "k"), Var(x), Idx(Var(t), Var(i))),
+			Assign([]*E{Var(i), Var(j), Idx(Var(t), Var(j))}, Var(j), Var(i), Bin("mul", Var(i), Var(j))),
+			Emit(Var(i), Var(j), Idx(Var(t), Int(vj))))}
 	case a != nil && b != nil && g.chance(50):
 		// swap / rotate: all right-hand sides are evaluated before any assignment
 		return []*S{Assign([]*E{g.use(a), g.use(b)}, g.use(b), Bin("add", g.use(a), g.use(b))), Emit(g.use(a), g.use(b))}
